@@ -33,10 +33,15 @@ def run(cfg, tier, seed, V, RUNNER):
         return out
     logroot = os.path.join(V, 'out', 'corrlogs')
     shutil.rmtree(logroot, ignore_errors=True)
+    real_runner = os.path.join(V, 'harness', 'target-real', 'release', 'runner')
+    if any(pr.get('real') for pr in cfg['profiles']):
+        subprocess.run(['sh', os.path.join(V, 'harness', 'real', 'build.sh')], stdout=subprocess.DEVNULL, stderr=subprocess.DEVNULL, timeout=900)
     for pi, pr in enumerate(cfg['profiles']):
         count, scheds = pr[tier]
         d = os.path.join(logroot, '%d_%s' % (pi, pr['name']))
-        cmd = [RUNNER, 'run', '--seed', str(seed + 17), '--scheds', str(scheds), '--logdir', d, '--no-touch-yield']
+        # real=True: the same programs on REAL threads (the OS schedules; the shim over std logs the same events)
+        if pr.get('real') and not os.path.exists(real_runner): continue
+        cmd = [real_runner if pr.get('real') else RUNNER, 'run', '--seed', str(seed + 17), '--scheds', str(scheds), '--logdir', d, '--no-touch-yield']
         if pr['name'] == 'corpus': cmd += ['--progs', os.path.join(V, 'corpus', 'l1.progs')]
         else: cmd += ['--profile', pr['name'], '--count', str(count)] + pr.get('extra', [])
         run_quiet(cmd)
